@@ -36,6 +36,30 @@ def closure_splits_on(crate, body, term):
     return None
 
 
+def _subst_args(t, value_of, depth=0):
+    if not isinstance(t, tuple) or depth > 12:
+        return t
+    if t[:1] == ('arg',) and isinstance(t[1], int):
+        v = value_of(t[1])
+        return v if v is not None else t
+    return tuple([_subst_args(y, value_of, depth + 1) for y in x] if isinstance(x, list) else _subst_args(x, value_of, depth + 1) if isinstance(x, tuple) else x for x in t)
+
+
+def _flag_value(v):
+    """True / False when the term is a boolean constant or the comparison of two known unit variants of one enum
+    (`role == Role::Client` with the caller's Role::Client substituted), else None"""
+    c = const_val(v)
+    if isinstance(c, bool):
+        return c
+    t = strip_refs(v)
+    if is_call(t) and t[3] in ('eq', 'ne') and len(t[2]) == 2:
+        a, b = strip_refs(t[2][0]), strip_refs(t[2][1])
+        if all(isinstance(x, tuple) and x[:1] == ('agg',) and x[1].get('variant') and not x[2] for x in (a, b)) and a[1].get('adt') == b[1].get('adt'):
+            same = a[1]['variant'] == b[1]['variant']
+            return same if t[3] == 'eq' else not same
+    return None
+
+
 def run(R):
     web = R.crate('tonic_web')
     W = spec('wire')['grpc_web']
@@ -472,6 +496,9 @@ def run(R):
                     v_ = strip_refs(mirlib.simplify(cal.origin_on_path(o_, path_)))
                     if v_ and v_[0] == 'arg' and v_[1] - 1 < len(t_['args']):
                         v_ = strip_refs(mirlib.simplify(caller.origin(t_['args'][v_[1] - 1])))
+                    elif v_ and is_call(v_) and v_[3] in ('eq', 'ne'):
+                        # a flag computed from a parameter (`role == Role::Client`): read with the caller's argument in its place
+                        v_ = _subst_args(v_, lambda n_: strip_refs(mirlib.simplify(caller.origin(t_['args'][n_ - 1]))) if n_ - 1 < len(t_['args']) else None)
                     out.setdefault(f_, [])
                     if v_ not in out[f_]:
                         out[f_].append(v_)
@@ -486,4 +513,4 @@ def run(R):
             dv = flds.get('direction', [])
             R.check(len(dv) == 1 and dv[0][0] == 'agg' and dv[0][1].get('variant') == dirn, 'C17.R3', '%s:direction' % nm, site(b, bb), 'direction = %s' % [show(x) for x in dv])
             cv = flds.get('client', [])
-            R.check(len(cv) == 1 and const_val(cv[0]) is True, 'C17.R3', 'new_client:client=true' if nm == 'client_request' else 'new_client:client=true@response', site(cal), 'client flag of the body built by %s: %s' % (nm, [show(x) for x in cv]))
+            R.check(len(cv) == 1 and _flag_value(cv[0]) is True, 'C17.R3', 'new_client:client=true' if nm == 'client_request' else 'new_client:client=true@response', site(cal), 'client flag of the body built by %s: %s' % (nm, [show(x) for x in cv]))
